@@ -348,7 +348,11 @@ fn splice_run(steps: u32) {
     let dst: DstHalf<Sock> = DstHalf { name: "server", stream: None, frames: None, rawfd: Some(AsyncFd(OwnedFd(2))) };
     let r = run_ready(copy_half(&IoParams { buffer_size: BUFN }, src, dst, Arc(ContextStatistics(0))));
     check_common(&r);
-    unsafe { kani::cover!(r.is_ok() && DST_POS == 2); kani::cover!(r.is_ok() && DST_POS == 1); }
+    unsafe {
+        // C13: what was relayed is accounted in the statistics (they carry the "last data" time the idle check reads)
+        if r.is_ok() { assert!(STAT_BYTES == DST_POS); }
+        kani::cover!(r.is_ok() && DST_POS == 2); kani::cover!(r.is_ok() && DST_POS == 1);
+    }
 }
 
 #[cfg(kani)]
